@@ -100,6 +100,33 @@ def walk(ctx, gp, lvl, depth, budget, judge, mode="model"):
     return res, fails
 
 
+def closure(ctx, gp, judge="model"):
+    """product of the real byte reader (verif hook: snapshot + clone) and the model's state graph, explored to closure"""
+    vh = ctx.build()
+    o = os.path.join(ctx.sub("closure"), "closure.json")
+    ctx.run([vh, "live-closure", "-graph", gp, "-out", o], timeout=3600)
+    res = json.load(open(o))
+    ctx.log("closure (driver level): %d (reader state, model state) pairs over %d model states, %d steps, closed=%s, %d mismatches"
+            % (res["pairs"], res["model_nodes"], res["steps"], res["closed"], len(res["mismatches"])))
+    ctx.cov["closure"] = {"pairs": res["pairs"], "steps": res["steps"], "closed": res["closed"]}
+    fails = []
+    for m in res["mismatches"]:
+        s = m["session"]
+        s["judge"] = judge
+        s.setdefault("panic", "")
+        s.setdefault("twin", [])
+        s.setdefault("twinbase", 0)
+        if not s.get("prev"):
+            s["prev"] = []
+        inp = [c["bytes"][0] for c in s["chunks"]]
+        fails.append(Failure("closure:reader", "closure exploration (driver level): cfg cap=%s sysex=%s input=%s step=%d expected=%s got=%s"
+                             % (s["cap"], s["sysex"], " ".join("%02X" % b for b in inp), m["step"], m["expected"], m["got"]),
+                             {"family": "live", "session": s}))
+    if not res["closed"] and not fails:
+        ctx.note("closure exploration hit its pair limit before closing (the real reader has far more states than the model)")
+    return fails
+
+
 def replay(ctx, payload):
     ok, new = rerun(ctx, payload["payload"]["session"])
     print(json.dumps({"reexecuted": new})[:3000])
